@@ -1,6 +1,7 @@
 package main
 
 import (
+	"runtime"
 	"go/types"
 	"context"
 	"encoding/json"
@@ -554,7 +555,14 @@ func (e *Engine) solveSet(o *checkOpts, obls []*Obligation) {
 	// phase C: whatever is still undecided (no proof, no model) is tried once more on an otherwise idle machine,
 	// one obligation at a time with a larger budget, so that a verdict never depends on the load of the host.
 	// Bounded to two and a half minutes in total; obligations not reached keep their phase B verdict.
-	deadline := time.Now().Add(150 * time.Second)
+	budget, factor := 150*time.Second, 2
+	overloaded := hostOverloaded()
+	if overloaded {
+		// other work is competing for the cores: every undecided verdict is suspect, and a second chance needs more
+		// wall-clock time to mean the same amount of solver work
+		budget, factor = 600*time.Second, 4
+	}
+	deadline := time.Now().Add(budget)
 	// cheapest first, so that one expensive undecided obligation cannot starve the others of their second chance
 	spent := func(ob *Obligation) float64 {
 		t := 0.0
@@ -579,10 +587,10 @@ func (e *Engine) solveSet(o *checkOpts, obls []*Obligation) {
 				slow = true
 			}
 		}
-		if !slow {
+		if !slow && !overloaded {
 			continue
 		}
-		r, tried := solve(ob.FullScript(), 2*o.timeout, true)
+		r, tried := solve(ob.FullScript(), time.Duration(factor)*o.timeout, true)
 		ob.Tried = append(ob.Tried, tried...)
 		if r.Status == "unsat" || r.Status == "sat" {
 			ob.Result = r
@@ -1135,4 +1143,17 @@ func (e *Engine) rebindClosures(specs *Specs) {
 		specs.Contracts[cands[0]] = c
 		e.notes = append(e.notes, fmt.Sprintf("%s: the function literal %s no longer exists under that name; its contract is bound to %s, the only literal of %s with the recorded shape (%s)", shortUnit(c), key, cands[0], parent, shapes[key]))
 	}
+}
+
+// hostOverloaded: the one-minute load average exceeds the number of cores by half (Linux; false when unknown).
+func hostOverloaded() bool {
+	b, err := os.ReadFile("/proc/loadavg")
+	if err != nil {
+		return false
+	}
+	var l1 float64
+	if _, err := fmt.Sscanf(string(b), "%f", &l1); err != nil {
+		return false
+	}
+	return l1 > 1.5*float64(runtime.NumCPU())
 }
